@@ -187,9 +187,8 @@ inline constexpr void Conversion<Unit::SubstanceAmount, Unit::SubstanceAmount::P
 }
 
 template <typename NumericType>
-inline const std::
-    map<Unit::SubstanceAmount, std::function<void(NumericType* values, const std::size_t size)>>
-        MapOfConversionsFromStandard<Unit::SubstanceAmount, NumericType>{
+inline const ConversionTable<Unit::SubstanceAmount, NumericType>
+    MapOfConversionsFromStandard<Unit::SubstanceAmount, NumericType>{
           {Unit::SubstanceAmount::Mole,
            Conversions<Unit::SubstanceAmount, Unit::SubstanceAmount::Mole>::
                FromStandard<NumericType>},
@@ -208,8 +207,7 @@ inline const std::
 };
 
 template <typename NumericType>
-inline const std::map<Unit::SubstanceAmount,
-                      std::function<void(NumericType* const values, const std::size_t size)>>
+inline const ConversionTable<Unit::SubstanceAmount, NumericType>
     MapOfConversionsToStandard<Unit::SubstanceAmount, NumericType>{
       {Unit::SubstanceAmount::Mole,
        Conversions<Unit::SubstanceAmount, Unit::SubstanceAmount::Mole>::ToStandard<NumericType>},
